@@ -153,8 +153,9 @@ def runChain (ws : List String) : String :=
         | [] => acc.reverse
         | s :: rest =>
           match s.splitOn ":" with
-          | [flag, pat] =>
-            match strOfHex pat with
+          | flag :: p0 :: more =>
+            -- the pattern word may itself contain `:` (compact `*<n>:<hex>` parts)
+            match strOfHex (joinWith ":" (p0 :: more)) with
             | none => (("bad-case") :: acc).reverse
             | some cs =>
               match parsePattern (flag == "P") (.single cs) with
